@@ -660,8 +660,9 @@ def route(rng, d, depth, defs=None):
     return ["powc", leaf(rng, list(d2.items()), defs), 1, big]
 
 
-def gen_tree(rng, depth, syms, defs=None):
-    """random in-domain tree (no dimensionless intermediate, +/- operands dimension-equal)"""
+def gen_tree(rng, depth, syms, defs=None, constdiv=False):
+    """random in-domain tree (no dimensionless intermediate, +/- operands dimension-equal);
+    constdiv: plain numbers also as dividend and divisor (2 / x, x / 2)"""
     defs = defs or {}
     if depth <= 0 or rng.random() < 0.15:
         u = rand_units(rng, syms, emax=3 if defs else 4)
@@ -669,18 +670,18 @@ def gen_tree(rng, depth, syms, defs=None):
         return ["leaf", units_json(u), unit_string(u, rng.choice(["*", DOT, "*"]))]
     c = rng.choice(["mul", "mul", "div", "div", "add", "sub", "add", "pow", "sqrt", "neg", "addc"])
     if c in ("mul", "div"):
-        return ["node", c, [gen_tree(rng, depth - 1, syms, defs), gen_tree(rng, depth - 1, syms, defs)]]
+        return ["node", c, [gen_tree(rng, depth - 1, syms, defs, constdiv), gen_tree(rng, depth - 1, syms, defs, constdiv)]]
     if c in ("neg", "sqrt"):
-        return ["node", c, [gen_tree(rng, depth - 1, syms, defs)]]
+        return ["node", c, [gen_tree(rng, depth - 1, syms, defs, constdiv)]]
     if c == "pow":
         k = rng.choice(POWERS)
-        return ["powc", gen_tree(rng, depth - 1, syms, defs), k.numerator, k.denominator]
+        return ["powc", gen_tree(rng, depth - 1, syms, defs, constdiv), k.numerator, k.denominator]
     if c == "addc":
-        args = [gen_tree(rng, depth - 1, syms, defs), ["const"]]
+        args = [gen_tree(rng, depth - 1, syms, defs, constdiv), ["const"]]
         if rng.random() < 0.5:
             args.reverse()
-        return ["node", rng.choice(["add", "sub", "mul"]), args]
-    a = gen_tree(rng, depth - 1, syms, defs)
+        return ["node", rng.choice(["add", "sub", "mul"] + (["div", "div"] if constdiv else [])), args]
+    a = gen_tree(rng, depth - 1, syms, defs, constdiv)
     da = dim_tree(a, defs)
     if da[0] != "ok" or not ok_exps(da[1]):
         return a
@@ -1140,7 +1141,12 @@ def run_cases(ctx, pid, cases, ref=False, use_model=True):
         for k, f in enumerate(fs):
             f["history"] = cases[ci]
             if f.get("oracle") == "independent":
-                prefix = [st for st in cases[ci][:si] if st[0] != "eval" or session_fault(st[1])]
+                # earlier evaluations of the same history are dropped unless they send a request
+                # to the session or the history is ABOUT them (["eval", tree, {"keep": true}])
+                prefix = [st for st in cases[ci][:si] if st[0] != "eval" or session_fault(st[1])
+                          or (len(st) > 2 and st[2].get("keep"))]
+                if any(st[0] == "eval" for st in prefix):
+                    f["carries_history"] = True
                 sh = shrink_tree(q, pid, prefix, t, dh)
                 if sh:
                     # report the smallest calculated quantity that still fails, with its own
@@ -1149,6 +1155,8 @@ def run_cases(ctx, pid, cases, ref=False, use_model=True):
                     g["history"] = prefix + [["eval", sh[0]]]
                     g["found_in"] = {"input": f["input"], "signature": f["signature"],
                                      "history": cases[ci]}
+                    if f.get("carries_history"):
+                        g["carries_history"] = True
                     f = fs[k] = g
                 if prefix:
                     f["input"] += "  with " + describe_prefix(prefix)
